@@ -385,11 +385,9 @@ func (rp *RepData) loadFromJSON(logger *slog.Logger, vodFS fs.FS, repDataDir, as
 func (rp *RepData) addRegExpAndInit(logger *slog.Logger, vodFS fs.FS, assetPath string) error {
 	switch {
 	case strings.Contains(rp.MediaURI, "$Number$"):
-		rexStr := strings.ReplaceAll(rp.MediaURI, "$Number$", `(\d+)`)
-		rp.mediaRegexp = regexp.MustCompile(rexStr)
+		rp.mediaRegexp = regexp.MustCompile(mediaPattern(rp.MediaURI, "$Number$"))
 	case strings.Contains(rp.MediaURI, "$Time$"):
-		rexStr := strings.ReplaceAll(rp.MediaURI, "$Time$", `(\d+)`)
-		rp.mediaRegexp = regexp.MustCompile(rexStr)
+		rp.mediaRegexp = regexp.MustCompile(mediaPattern(rp.MediaURI, "$Time$"))
 	default:
 		return fmt.Errorf("neither $Number$, nor $Time$ found in media")
 	}
@@ -401,6 +399,17 @@ func (rp *RepData) addRegExpAndInit(logger *slog.Logger, vodFS fs.FS, assetPath 
 		}
 	}
 	return nil
+}
+
+// mediaPattern turns a media template into a regular expression that matches a whole segment path:
+// the literal parts are quoted and the identifier becomes (\d+). Without quoting and anchoring,
+// the pattern of representation "1" would also match inside "11/48.m4s".
+func mediaPattern(mediaURI, identifier string) string {
+	parts := strings.Split(mediaURI, identifier)
+	for i := range parts {
+		parts[i] = regexp.QuoteMeta(parts[i])
+	}
+	return "^" + strings.Join(parts, `(\d+)`) + "$"
 }
 
 // writeToJSON writes the representation data to a gzipped JSON file.
